@@ -122,8 +122,21 @@ def _(eng, m, g, a):
 def _(eng, m, g, a):
     v = a[0]
     return Sc("char", z3.ZeroExt(24, v.v) if v.sym() else v.v)
-@model(r"^<u32 as From<char>>::from$")
-def _(eng, m, g, a): return Sc("u32", a[0].v)
+@model(r"^<(u8|u16|u32|u64|u128|usize|i8|i16|i32|i64|i128|isize) as From<(bool|char|u8|u16|u32|u64|u128|usize|i8|i16|i32|i64|i128|isize)>>::from$")
+def _(eng, m, g, a):
+    dst, src = m.group(1), m.group(2); v = a[0]; db = INT_BITS[dst]
+    if src == "bool":
+        if v.sym(): return Sc(dst, z3.If(v.v, z3.BitVecVal(1, db), z3.BitVecVal(0, db)))
+        return Sc(dst, 1 if v.v else 0)
+    sb = INT_BITS[src]
+    if v.sym():
+        x = v.v
+        if db > sb: x = z3.SignExt(db - sb, x) if src[0] == "i" else z3.ZeroExt(db - sb, x)
+        elif db < sb: x = z3.Extract(db - 1, 0, x)
+        return Sc(dst, x)
+    x = v.v
+    if src[0] == "i" and x >> (sb - 1): x -= 1 << sb
+    return Sc(dst, x & ((1 << db) - 1))
 @model(r"^(?:core::char::methods::<impl char>|char)::from_u32$")
 def _(eng, m, g, a):
     v = a[0]
@@ -138,7 +151,7 @@ def _(eng, m, g, a):
         k = eng.choose([(1, z3.ULT(c.v, 0x80)), (2, z3.And(z3.UGE(c.v, 0x80), z3.ULT(c.v, 0x800))), (3, z3.And(z3.UGE(c.v, 0x800), z3.ULT(c.v, 0x10000))), (4, z3.UGE(c.v, 0x10000))])
         return U(k)
     return U(len(chr(c.v).encode()))
-@model(r"^<char as ToString>::to_string$|^<String as From<char>>::from$")
+@model(r"^<char as ToString>::to_string$|^<(?:std::string::)?String as From<char>>::from$")
 def _(eng, m, g, a): return mk_str_from_chars([deref(a[0])])
 
 def utf8_bytes(eng, c):
@@ -166,6 +179,24 @@ def _(eng, m, g, a):
     return Slot([VecV(out)], 0)
 @model(r"^core::str::<impl str>::len$|^(?:std::string::)?String::len$")
 def _(eng, m, g, a):
+    v = deref(a[0])
+    if isinstance(v, StrV) and any(isinstance(p, tuple) and p[0] == "int" for p in v.p):
+        # decimal rendering of a symbolic unsigned integer: its length is the exact digit count (a z3 term)
+        n = 0; terms = []
+        for p in v.p:
+            if isinstance(p, tuple) and p[0] == "int":
+                x = p[1]
+                if not x.sym(): n += len(str(x.v)); continue
+                if not x.ty.startswith("u"): raise Unmodelled("len of a string with a signed symbolic number")
+                w = x.v.size(); t = z3.BitVecVal(1, 64); k = 10; d = 2
+                while k < (1 << w):
+                    t = z3.If(z3.UGE(x.v, z3.BitVecVal(k, w)), z3.BitVecVal(d, 64), t); k *= 10; d += 1
+                terms.append(t)
+            else:
+                for c in str_chars(StrV([p])): n += len(utf8_bytes(eng, c))
+        r = z3.BitVecVal(n, 64)
+        for t in terms: r = r + t
+        return Sc("usize", r)
     n = 0
     for c in str_chars(a[0]): n += len(utf8_bytes(eng, c))
     return U(n)
@@ -202,6 +233,29 @@ def _(eng, m, g, a):
         if isinstance(x, Sc): return chr(x.v)
         return cstr(x, k)
     bo = lambda t: Slot([StrV([t])], 0)
+    if len(a) > 1 and isinstance(deref(a[1]), (Agg, FnPtr)) and not isinstance(deref(a[1]), (StrV, VecV)):
+        # a closure / fn item as the pattern (`FnMut(char) -> bool`): decided char by char on the concrete string
+        hit = lambda c: eng.branch(eng.call_value(a[1], [Sc("char", ord(c))]))
+        if k == "ends_with": return B(bool(s) and hit(s[-1]))
+        if k in ("find", "rfind"):
+            idx = range(len(s)) if k == "find" else range(len(s) - 1, -1, -1)
+            for i in idx:
+                if hit(s[i]): return some(U(len(s[:i].encode())))
+            return none()
+        if k in ("trim_matches", "trim_start_matches", "trim_end_matches"):
+            lo, hi = 0, len(s)
+            if k != "trim_end_matches":
+                while lo < hi and hit(s[lo]): lo += 1
+            if k != "trim_start_matches":
+                while hi > lo and hit(s[hi - 1]): hi -= 1
+            return bo(s[lo:hi])
+        if k in ("split", "rsplit"):
+            parts = [""]
+            for c in s:
+                if hit(c): parts.append("")
+                else: parts[-1] += c
+            return ListIt([bo(x) for x in (parts if k == "split" else reversed(parts))], byref=False)
+        raise Unmodelled("str::%s with a closure pattern" % k)
     if k == "ends_with": return B(s.endswith(pat(a[1])))
     if k in ("find", "rfind"):
         i = s.find(pat(a[1])) if k == "find" else s.rfind(pat(a[1]))
@@ -389,10 +443,16 @@ def _(eng, m, g, a): return B(False) if a[0].idx == 1 else eng.call_value(a[1], 
 
 # ------------------------------------------------------------------ iterator extras
 class TakeIt(It):
-    def __init__(self, it, n): self.it = it; self.n = n
+    def __init__(self, it, n): self.it = it; self.n = n; self.taken = 0
     def next(self, eng):
+        if isinstance(self.n, Sc):                 # symbolic count: one fork per element, like a range
+            if not eng.branch(eng.binop("Lt", Sc(self.n.ty, self.taken), self.n)): return None
+            self.taken += 1; return self.it.next(eng)
         if self.n <= 0: return None
         self.n -= 1; return self.it.next(eng)
+class RepeatWithIt(It):
+    def __init__(self, f): self.f = f
+    def next(self, eng): return eng.call_value(self.f, [])
 class SkipIt(It):
     def __init__(self, it, n): self.it = it; self.n = n
     def next(self, eng):
@@ -453,7 +513,9 @@ class StepIt(It):
             if self.it.next(eng) is None: return None
         return self.it.next(eng)
 @model(r"^<.* as Iterator>::take$")
-def _(eng, m, g, a): return TakeIt(as_iter(eng, a[0]), a[1].v)
+def _(eng, m, g, a): return TakeIt(as_iter(eng, a[0]), a[1] if a[1].sym() else a[1].v)
+@model(r"^(?:(?:std|core)::iter::)?repeat_with$")
+def _(eng, m, g, a): return RepeatWithIt(a[0])
 @model(r"^<.* as Iterator>::skip$")
 def _(eng, m, g, a): return SkipIt(as_iter(eng, a[0]), a[1].v)
 @model(r"^<.* as Iterator>::step_by$")
@@ -614,10 +676,10 @@ def _(eng, m, g, a):
     return B(all(cmp_vals(eng, xs[i], xs[i+1]) <= 0 for i in range(len(xs) - 1)))
 @model(r"^<.* as Iterator>::size_hint$")
 def _(eng, m, g, a): return Agg("()", [U(0), none()])
-@model(r"^(?:std|core)::iter::(once|empty|repeat_n)$")
+@model(r"^(?:(?:std|core)::iter::)?(once|repeat_n)$|^(?:std|core)::iter::(empty)$")
 def _(eng, m, g, a):
     if m.group(1) == "once": return ListIt([a[0]], False)
-    if m.group(1) == "empty": return ListIt([], False)
+    if m.group(2) == "empty": return ListIt([], False)
     return ListIt([clone_val(eng, a[0]) for _ in range(a[1].v)], False)
 
 # ------------------------------------------------------------------ Vec / slice extras
@@ -884,3 +946,20 @@ def _(eng, m, g, a):
 @model(r"^<(?:&)?(?:\[.*\]|Vec<.*>|\(.*\)) as PartialOrd>::(lt|le|gt|ge)$")
 def _(eng, m, g, a):
     c = cmp_generic(eng, a[0], a[1]); return B({"lt": c < 0, "le": c <= 0, "gt": c > 0, "ge": c >= 0}[m.group(1)])
+
+@model(r"^(?:std|core)::mem::discriminant$|^discriminant$")
+def _(eng, m, g, a):
+    v = deref(a[0])
+    if not isinstance(v, En): raise Unmodelled("mem::discriminant of a non-enum value")
+    return Agg("Discriminant", [Sc("isize", v.idx), StrV([v.enum])])
+@model(r"^<(?:Vec<.*>|\[.*\]) as (?:std::ops::)?IndexMut<usize>>::index_mut$")
+def _(eng, m, g, a):
+    it = deref(a[0]).items
+    if a[1].sym(): raise Unmodelled("symbolic index")
+    if a[1].v >= len(it): raise Panic("index out of bounds")
+    return Slot(it, a[1].v)
+
+@model(r"^<.* as ToTokens>::into_token_stream$")
+def _(eng, m, g, a):
+    import models_tok
+    ts = models_tok.TS(); models_tok.to_tokens(eng, a[0], ts); return ts
